@@ -485,7 +485,7 @@ def names_oracle(ctx, rep):
 
 def run(ctx, rep):
     rep.rule = ("checkpointed runs (num_checkpoints 1..3/None, frequencies 1..3, fresh and resumed-from-checkpoint) with a crash injected "
-                "before every file-system step; dump/load round trips of islands (int-list and AGraph) and serial archipelagos; "
+                "before every file-system step; dump/load round trips of islands (int-list and AGraph) and serial archipelagos; base names with dots and two runs sharing a directory; "
                 "distinct = distinct (configuration, crash point); non-trivial = at least one checkpoint written")
     rep.assumptions = ["file system: open('wb') truncates, writes are not atomic, os.replace/os.remove are atomic",
                        "dill round trip and RNG transparency are validated on samples, not proved"]
